@@ -56,7 +56,9 @@ Obfs     == {"hostname", "ip", "keyword", "mac", "password"}
 (*   kwdom   keyword 1 is a label of the system's domain (two obfuscators   *)
 (*           compete for every name of the domain)                          *)
 (*   pwip    the secret after a password key is the address ip 1            *)
-AllFam   == {"plain", "prefix", "collide", "suffix", "kwdom", "pwip"}
+(*   eqlen   the domain hosts have names of equal length (ties in a        *)
+(*           longest-first treatment), the highest id may be longer        *)
+AllFam   == {"plain", "prefix", "collide", "suffix", "kwdom", "pwip", "eqlen"}
 
 VARIABLES
     phase,      \* "new" | "idle" | "spec" | "done"
